@@ -13,7 +13,7 @@ for c in "$@"; do
   git -C /repo apply "$D/patch.diff" || { echo "$(basename $D) APPLY-FAILED"; flock -u 9; exit 2; }
   out=/var/tmp/try_mut.$$.out
   : > $out
-  VERIF_LOCK_HELD=1 VERIF_WORKERS=${W:-6} VERIF_BUDGET_SEC=${BUDGET:-20} ./bin/verifctl check $c --tier quick > $out 2>&1 &
+  VERIF_LOCK_HELD=1 VERIF_NO_EVIDENCE=1 VERIF_WORKERS=${W:-6} VERIF_BUDGET_SEC=${BUDGET:-20} ./bin/verifctl check $c --tier quick > $out 2>&1 &
   pid=$!
   while kill -0 $pid 2>/dev/null && ! grep -q "tree copied\|build failed" $out; do sleep 0.2; done
   git -C /repo checkout -- .
